@@ -99,5 +99,22 @@ def run(tier, t0):
 
 
 def replay(path):
-    print("re-run `bin/check C12`; the failing case is in the replay file")
-    return 2
+    """Re-run the case of a replay file through the real conversions and the TLC judge; exit 1 if it fails again."""
+    import json
+    rec = json.load(open(path))
+    case = rec["sample"]["case"]
+    wd = C.workdir("c12_replay")
+    cp, op = os.path.join(wd, "case.ndjson"), os.path.join(wd, "obs.ndjson")
+    C.write_ndjson(cp, [{"n": 5}, {"a": case["a"], "to": case["to"]}])
+    C.qv(["dt-convert"], stdin_path=cp, stdout_path=op, timeout=600)
+    obs = [o for o in C.read_ndjson(op) if o["emb"] == case["embedding"]]
+    recs = [{"case": 0, "emb": o["emb"], "to": o["to"], "src": case["a"]["k"], "may": True, "type_conv": o["type_conv"] if o["type_conv"] in ("ok", "err") else "panic",
+             "vals": [{"out": v["out"], "image_id": v["image_id"], "in_converted": bool(v["in_converted"]), "back": v["back"], "integral": bool(v["integral"]), "is01": bool(v["is01"])} for v in o["vals"]]} for o in obs]
+    tp = os.path.join(wd, "trace.ndjson")
+    C.write_ndjson(tp, recs)
+    _, fails, _ = C.validate_trace("Trace_Convert", "Trace_Convert.cfg", tp, "c12_replay")
+    print(json.dumps(obs)[:2000])
+    if [f for f in fails if not f[1].startswith("drift:")]:
+        print(f"VIOLATION property={PID} replay={path}")
+        return 1
+    return 0
